@@ -362,7 +362,7 @@ def w_chain(case, led):
                                "terms": [repr(t) for t in terms],
                                "how": "vk.specs.chain.model_zoo / universe.make_state / chain.apply_gauge regenerate the state; then x.dump(f); type(x).load(model, f)"}
                         nontriv = n >= 2 and max(x.bond_dims) > 1
-                        if name == "spin2qn" and n == 4 and g == "center" and cplx and not led.samples:
+                        if name == "spin2qn" and n >= 3 and cplx and nontriv and g not in ("fresh", "cano") and not led.samples:
                             led.samples.append(dict(rep, part="round trip", state=describe(x), later_ops=[o[0] for o in ops],
                                                     contract="load(dump(x)): tensors bit-identical; qn per bond, qnidx, qntot, to_right, coeff identical; later ops same result"))
                         chain_roundtrip(led, x, model, fname, key, rep, ops, nontriv, scale=hscale * (1.0 + float(np.linalg.norm(S.dense(x))) ** 2))
@@ -980,7 +980,7 @@ def judge(led, res, nsteps, key, base_fields, rep, origin):
         if j + 1 >= len(dumps) and (res["crashed"]):
             continue
         fl = dict(base_fields, origin=origin, pre_state=state_str(dd["pre"]))
-        led.check(dd["gen"] in after.values() and res["error"] is None, "post:TdMpsJob.dump_dict:current_step_written", fn,
+        led.check(dd["gen"] in [g for nm, g in after.items() if nm in (FNAME, BNAME)] and res["error"] is None, "post:TdMpsJob.dump_dict:current_step_written", fn,
                   f"after a dump that was not interrupted (step {dd['step']}, directory before: {state_str(dd['pre'])}) no complete file holds the step's data; "
                   f"directory after: {state_str(after)}; library error: {res['error']}", key + ("written", j), fl, dict(rep, dump_index=j + 1), True)
     if res["error"] is not None and not dumps:
@@ -989,14 +989,15 @@ def judge(led, res, nsteps, key, base_fields, rep, origin):
     # the crash invariant
     if res["crashed"]:
         dd = dumps[-1]
-        pre_gens = [g for g in dd["pre"].values() if g is not None]
+        # result files are the job's result file and its backup; temporary files of the writing protocol are not results
+        pre_gens = [g for nm, g in dd["pre"].items() if g is not None and nm in (FNAME, BNAME)]
         prev = max(pre_gens) if pre_gens else None
-        post = [g for g in res["final"].values() if g is not None]
+        post = [g for nm, g in res["final"].items() if g is not None and nm in (FNAME, BNAME)]
         c = ctl.crash
         fl = dict(base_fields, origin=origin, pre_state=state_str(dd["pre"]), crash_op=c["op"], phase=c["phase"], frac=c["frac"],
                   executed=";".join(dd["executed"]))
-        if prev is None and not dd["write_done"]:
-            ok, nontriv = True, False      # first dump, nothing written yet: nothing can have been lost
+        if prev is None:
+            ok, nontriv = True, False      # no complete result file existed before this dump: nothing can have been lost
         else:
             allowed = {dd["gen"]} | ({prev} if prev is not None else set())
             ok, nontriv = bool(allowed & set(post)), True
@@ -1051,9 +1052,10 @@ def _w_crash(case, led):
             k1 = ("crash", init, s1, mode) + fkey(f1)
             rep1 = dict(rep0, segments=[{"base": 100, "nsteps": n1, "faults": pre_faults + [f1]}])
             judge(led, r1, n1, k1, base_fields, rep1, "initial" if (mode == "crash" and s1 == 1) else ("same_job" if mode == "crash" else "after_ioerror"))
-            if init in ("F=partial,bak=complete", "F=complete,bak=absent") and s1 == 1 and mode == "crash" and len(led.samples) < 2 and p1["phase"] == "after":
+            if s1 == 1 and mode == "crash" and ((init == "F=partial,bak=complete" and p1["phase"] == "after" and r1["ctl"].crash["op"].startswith("remove"))
+                                                or (init == "F=complete,bak=absent" and p1["frac"] == "half")):
                 dd = r1["ctl"].dumps[-1]
-                led.samples.append({"part": "crash", "initial_state": init, "crashed_step": s1, "crash": f"{p1['phase']} {r1['ctl'].crash['op']}",
+                led.samples.append({"part": "crash", "initial_state": init, "crashed_step": s1, "crash": f"{p1['phase']} {r1['ctl'].crash['op']}" + (f" (file truncated at {p1['frac']})" if p1["frac"] else ""),
                                     "executed_before_crash": dd["executed"], "directory_after_crash": state_str(r1["final"]),
                                     "complete_generations_after_crash": sorted(g for g in r1["final"].values() if g is not None),
                                     "then": "restart without fault, and restart with a second crash at every point of its steps 1..2 followed by a third life"})
@@ -1128,6 +1130,8 @@ def worker(case, led):
 
 
 def check(run):
+    from props import C14_proof
+    C14_proof.prove(run)
     tier, seed = run.tier, run.seed
     cases = []
     # crash part first (long cases first keeps the pool busy): complete enumeration
